@@ -375,9 +375,12 @@ impl<'de, R: Reader<'de>> Deserializer<R> {
             let n = if cfg.utf8_lossy && self.parser.read.next_invalid_utf8() != usize::MAX {
                 // repr the invalid utf8, not need to care about the invalid UTF8 char in non-string
                 // parts, it will cause errors when parsing.
-                let n = val.parse_with_padding(String::from_utf8_lossy(json).as_bytes(), cfg)?;
-                // `n` counts the bytes of the repaired text, the reader walks the original input
-                crate::util::utf8::lossy_offset_to_origin(json, n)
+                // offsets of the repaired text (the end of the value, the position of an error) are
+                // mapped back: the reader and the caller only know the original input
+                match val.parse_with_padding(String::from_utf8_lossy(json).as_bytes(), cfg) {
+                    Ok(n) => crate::util::utf8::lossy_offset_to_origin(json, n),
+                    Err(err) => return Err(err.rebase_lossy(json)),
+                }
             } else {
                 val.parse_with_padding(json, cfg)?
             };
